@@ -184,6 +184,11 @@ func genE2E(t *rapid.T) e2eCase {
 		tot := c.Files[0].Lines * lenClasses[c.Files[0].LenK]
 		c.Pace = pace{Kind: "stalls", Chunk: 4096, Pipe: 4096, Stalls: []Stall{{At: tot / rapid.SampledFrom([]int{20, 10, 3}).Draw(t, "lr-at"), Ms: 3500}}}
 	}
+	if c.NoFinalNL {
+		// an unreadable glob match makes the server print a log record, which would follow the unterminated last line on
+		// the same output line: the two shapes are not combined
+		c.Decoys = 0
+	}
 	return c
 }
 
